@@ -197,6 +197,7 @@ Fixpoint ceq (flip : bool) (a b : comp) {struct a} : bool :=
 Definition model_equals (a b : model) : bool :=
   String.eqb (m_name a) (m_name b) && Nat.eqb (length (m_comps a)) (length (m_comps b))
   && forallb (fun ca => existsb (fun cb => ceq true ca cb) (m_comps b)) (m_comps a)
+  && Nat.eqb (length (m_units a)) (length (m_units b))          (* model.cpp: ModelImpl::equalUnits compares the counts *)
   && equal_entities units_equals (m_units a) (m_units b).
 
 (* ------------------------------------------------------------------------------------------ importer state *)
@@ -344,8 +345,56 @@ Definition related_comp (sc : option comp) (e : perr) : bool :=
 Definition fetch_epoch (o : owner) (url : string) : epoch :=
   {| e_src := model_url o; e_dst := mk_key url; e_srcm := o; e_dstm := Some (mk_key url) |}.
 
-(* importer.cpp: ImporterImpl::fetchUnits.  [o] owns [u]; on success the code pops what it pushed, on failure
-   the whole resolution of the top-level entity is abandoned, so [hist] is passed by value. *)
+(* a loop that threads a value through its steps and stops at the first step that does not answer true:
+   "for (x : l) if (!step(x)) return false; return true;" *)
+Fixpoint all_ok {A X : Type} (step : X -> A -> res (bool * X)) (l : list A) (x : X) : res (bool * X) :=
+  match l with
+  | [] => Ok (true, x)
+  | a :: r => match step x a with
+              | Ok (true, x') => all_ok step r x'
+              | other => other
+              end
+  end.
+
+(* One activation of ImporterImpl::fetchUnits on an imported units (importer.cpp); [rec] is fetchUnits itself
+   for the recursive calls.  [o] owns the units; on success the code pops what it pushed, on failure the whole
+   resolution of the top-level entity is abandoned, so [hist] is passed by value. *)
+Definition fetch_units_body (rec : state -> owner -> list epoch -> units -> res (bool * state))
+           (strict : bool) (fs : fsys) (m0 : model) (st : state) (o : owner) (hist : list epoch)
+           (name : string) (sid : nat) (url ref : string) : res (bool * state) :=
+  match fetch_import_source strict fs st o sid url with
+  | FMfail st1 => Ok (false, st1)
+  | FMok st1 errs sm =>
+    (* the parser's errors were added and are removed again; one of them about the referenced units? *)
+    if existsb (related_units ref) errs
+    then Ok (false, add_issue st1 R_ERROR_IMPORTING_UNITS (ItUnits o name))
+    else
+      let h := fetch_epoch o url in
+      if check_cycle st1 m0 hist h
+      then Ok (false, add_issue st1 R_CYCLE (ItImport o url))
+      else
+        let hist' := hist ++ [h] in
+        let o' := Some (mk_key url) in
+        match find_units (m_units sm) ref with
+        | None => Ok (false, add_issue st1 R_MISSING_UNITS (ItUnits o name))
+        | Some su =>
+          match rec st1 o' hist' su with
+          | Ok (true, st2) =>
+            all_ok (fun st r =>
+                      if is_std r then Ok (true, st)
+                      else match find_units (m_units sm) r with
+                           | None => Ok (false, add_issue st R_MISSING_UNITS (ItUnits o' (uname su)))
+                           | Some cu =>
+                             (* if (sourceUnit->isImport()) fetchUnits(...): a local child is NOT descended into *)
+                             rec st o' hist' cu
+                           end)
+                   (match su with ULocal _ refs => refs | UImp _ _ _ _ => [] end) st2
+          | other => other
+          end
+        end
+  end.
+
+(* importer.cpp: ImporterImpl::fetchUnits *)
 Fixpoint fetch_units (fuel : nat) (strict : bool) (fs : fsys) (m0 : model) (st : state) (o : owner)
          (hist : list epoch) (u : units) {struct fuel} : res (bool * state) :=
   match u with
@@ -353,45 +402,64 @@ Fixpoint fetch_units (fuel : nat) (strict : bool) (fs : fsys) (m0 : model) (st :
   | UImp name sid url ref =>
     match fuel with
     | 0 => OutOfFuel
-    | S f =>
-      match fetch_import_source strict fs st o sid url with
-      | FMfail st1 => Ok (false, st1)
-      | FMok st1 errs sm =>
-        (* the parser's errors were added and are removed again; one of them about the referenced units? *)
-        if existsb (related_units ref) errs
-        then Ok (false, add_issue st1 R_ERROR_IMPORTING_UNITS (ItUnits o name))
-        else
-          let h := fetch_epoch o url in
-          if check_cycle st1 m0 hist h
-          then Ok (false, add_issue st1 R_CYCLE (ItImport o url))
-          else
-            let hist' := hist ++ [h] in
-            let o' := Some (mk_key url) in
-            match find_units (m_units sm) ref with
-            | None => Ok (false, add_issue st1 R_MISSING_UNITS (ItUnits o name))
-            | Some su =>
-              match fetch_units f strict fs m0 st1 o' hist' su with
-              | Ok (true, st2) =>
-                (fix kids (refs : list string) (st : state) {struct refs} : res (bool * state) :=
-                   match refs with
-                   | [] => Ok (true, st)
-                   | r :: rest =>
-                     if is_std r then kids rest st
-                     else match find_units (m_units sm) r with
-                          | None => Ok (false, add_issue st R_MISSING_UNITS (ItUnits o' (uname su)))
-                          | Some cu =>
-                            (* if (sourceUnit->isImport()) fetchUnits(...): a local child is NOT descended into *)
-                            match fetch_units f strict fs m0 st o' hist' cu with
-                            | Ok (true, st') => kids rest st'
-                            | other => other
-                            end
-                          end
-                   end) (match su with ULocal _ refs => refs | UImp _ _ _ _ => [] end) st2
-              | other => other
-              end
-            end
-      end
+    | S f => fetch_units_body (fetch_units f strict fs m0) strict fs m0 st o hist name sid url ref
     end
+  end.
+
+(* The part of ImporterImpl::fetchComponent before the import itself: "if (!requiresImports()) return true;
+   if (!isImport()) { for (children) if (!fetchComponent(child)) return false; return true; }".
+   [imp st c] is what happens at an imported component. *)
+Fixpoint walk_comp (imp : state -> comp -> res (bool * state)) (c : comp) (st : state) {struct c}
+  : res (bool * state) :=
+  if negb (requires_imports c) then Ok (true, st) else
+  match c with
+  | Comp _ None _ kids =>
+    (fix wl (l : list comp) (st : state) {struct l} : res (bool * state) :=
+       match l with
+       | [] => Ok (true, st)
+       | k :: r => match walk_comp imp k st with Ok (true, st') => wl r st' | other => other end
+       end) kids st
+  | Comp _ (Some _) _ _ => imp st c
+  end.
+
+(* One activation of ImporterImpl::fetchComponent on an imported component; [recu] = fetchUnits, [recc] =
+   fetchComponent for the recursive calls. *)
+Definition fetch_comp_body (recu : state -> owner -> list epoch -> units -> res (bool * state))
+           (recc : state -> owner -> list epoch -> comp -> res (bool * state))
+           (strict : bool) (fs : fsys) (m0 : model) (st : state) (o : owner) (hist : list epoch)
+           (name : string) (sid : nat) (url ref : string) : res (bool * state) :=
+  match fetch_import_source strict fs st o sid url with
+  | FMfail st1 => Ok (false, st1)
+  | FMok st1 errs sm =>
+    let sc := find_comp (m_comps sm) ref in
+    if existsb (related_comp sc) errs
+    then Ok (false, add_issue st1 R_ERROR_IMPORTING_UNITS (ItComp o name))
+    else
+      let h := fetch_epoch o url in
+      if check_cycle st1 m0 hist h
+      then Ok (false, add_issue st1 R_CYCLE (ItImport o url))
+      else
+        let hist' := hist ++ [h] in
+        let o' := Some (mk_key url) in
+        match sc with
+        | None => Ok (false, add_issue st1 R_MISSING_COMPONENT (ItComp o name))
+        | Some sc =>
+          match recc st1 o' hist' sc with
+          | Ok (true, st2) =>
+            match all_ok (fun st k => recc st o' hist' k) (ckids sc) st2 with
+            | Ok (true, st3) =>
+              (* unitsNamesUsed(sourceComponent): units of its own variables only *)
+              all_ok (fun st n =>
+                        if is_std n then Ok (true, st)
+                        else match find_units (m_units sm) n with
+                             | None => Ok (false, add_issue st R_MISSING_COMPONENT (ItComp o name))
+                             | Some su => recu st o' hist' su
+                             end) (cused sc) st3
+            | other => other
+            end
+          | other => other
+          end
+        end
   end.
 
 (* importer.cpp: ImporterImpl::fetchComponent.  Import hops consume fuel; the walk over a local component's
@@ -401,64 +469,13 @@ Fixpoint fetch_comp (fuel : nat) (strict : bool) (fs : fsys) (m0 : model) (st : 
   match fuel with
   | 0 => OutOfFuel
   | S f =>
-    (fix walk (c : comp) (st : state) {struct c} : res (bool * state) :=
-       if negb (requires_imports c) then Ok (true, st) else
-       match c with
-       | Comp _ None _ kids =>
-         (fix wl (l : list comp) (st : state) {struct l} : res (bool * state) :=
-            match l with
-            | [] => Ok (true, st)
-            | k :: r => match walk k st with Ok (true, st') => wl r st' | other => other end
-            end) kids st
-       | Comp name (Some (sid, url, ref)) _ _ =>
-         match fetch_import_source strict fs st o sid url with
-         | FMfail st1 => Ok (false, st1)
-         | FMok st1 errs sm =>
-           let sc := find_comp (m_comps sm) ref in
-           if existsb (related_comp sc) errs
-           then Ok (false, add_issue st1 R_ERROR_IMPORTING_UNITS (ItComp o name))
-           else
-             let h := fetch_epoch o url in
-             if check_cycle st1 m0 hist h
-             then Ok (false, add_issue st1 R_CYCLE (ItImport o url))
-             else
-               let hist' := hist ++ [h] in
-               let o' := Some (mk_key url) in
-               match sc with
-               | None => Ok (false, add_issue st1 R_MISSING_COMPONENT (ItComp o name))
-               | Some sc =>
-                 match fetch_comp f strict fs m0 st1 o' hist' sc with
-                 | Ok (true, st2) =>
-                   match (fix ckids (l : list comp) (st : state) {struct l} : res (bool * state) :=
-                            match l with
-                            | [] => Ok (true, st)
-                            | k :: r => match fetch_comp f strict fs m0 st o' hist' k with
-                                        | Ok (true, st') => ckids r st'
-                                        | other => other
-                                        end
-                            end) (ckids sc) st2 with
-                   | Ok (true, st3) =>
-                     (* unitsNamesUsed(sourceComponent): units of its own variables only *)
-                     (fix us (l : list string) (st : state) {struct l} : res (bool * state) :=
-                        match l with
-                        | [] => Ok (true, st)
-                        | n :: r =>
-                          if is_std n then us r st
-                          else match find_units (m_units sm) n with
-                               | None => Ok (false, add_issue st R_MISSING_COMPONENT (ItComp o name))
-                               | Some su => match fetch_units f strict fs m0 st o' hist' su with
-                                            | Ok (true, st') => us r st'
-                                            | other => other
-                                            end
-                               end
-                        end) (cused sc) st3
-                   | other => other
-                   end
-                 | other => other
-                 end
-               end
-         end
-       end) c st
+    walk_comp (fun st c =>
+                 match c with
+                 | Comp name (Some (sid, url, ref)) _ _ =>
+                   fetch_comp_body (fetch_units f strict fs m0) (fetch_comp f strict fs m0)
+                                   strict fs m0 st o hist name sid url ref
+                 | Comp _ None _ _ => Ok (true, st)      (* not reached: walk_comp calls this on imports only *)
+                 end) c st
   end.
 
 (* replace the item of the newest issue: issue(issueCount() - 1)->mItem->setUnits / setComponent *)
@@ -471,34 +488,29 @@ Definition retarget_last (st : state) (it : iitem) : state :=
 (* fuel that suffices for every file system (ImportProofs.resolve_terminates) *)
 Definition fuel_bound (fs : fsys) (st : state) : nat := 2 * (length fs + length (lib st)) + 4.
 
+(* the two loops of Importer::resolveImports: a failing entity does not stop the loop; the newest issue is
+   re-attached to the top-level importing entity and the status becomes false *)
+Fixpoint resolve_loop {A : Type} (fetch : state -> A -> res (bool * state)) (item : A -> iitem)
+         (l : list A) (acc : bool) (st : state) {struct l} : res (bool * state) :=
+  match l with
+  | [] => Ok (acc, st)
+  | a :: r => match fetch st a with
+              | Ok (true, st') => resolve_loop fetch item r acc st'
+              | Ok (false, st') => resolve_loop fetch item r false (retarget_last st' (item a))
+              | Crash => Crash
+              | OutOfFuel => OutOfFuel
+              end
+  end.
+
 (* importer.cpp: Importer::resolveImports(model, basePath) *)
 Definition resolve_imports (fuel : nat) (strict : bool) (fs : fsys) (st : state) (m0 : model)
   : res (bool * state) :=
   let st0 := clear_origin_links (clear_issues st) in
-  let step_u :=
-      fix go (l : list units) (acc : bool) (st : state) {struct l} : res (bool * state) :=
-        match l with
-        | [] => Ok (acc, st)
-        | u :: r => match fetch_units fuel strict fs m0 st None [] u with
-                    | Ok (true, st') => go r acc st'
-                    | Ok (false, st') => go r false (retarget_last st' (ItUnits None (uname u)))
-                    | Crash => Crash
-                    | OutOfFuel => OutOfFuel
-                    end
-        end in
-  let step_c :=
-      fix go (l : list comp) (acc : bool) (st : state) {struct l} : res (bool * state) :=
-        match l with
-        | [] => Ok (acc, st)
-        | c :: r => match fetch_comp fuel strict fs m0 st None [] c with
-                    | Ok (true, st') => go r acc st'
-                    | Ok (false, st') => go r false (retarget_last st' (ItComp None (cname c)))
-                    | Crash => Crash
-                    | OutOfFuel => OutOfFuel
-                    end
-        end in
-  match step_u (imported_units m0) true st0 with
-  | Ok (acc, st1) => step_c (imported_comps m0) acc st1
+  match resolve_loop (fun st u => fetch_units fuel strict fs m0 st None [] u) (fun u => ItUnits None (uname u))
+                     (imported_units m0) true st0 with
+  | Ok (acc, st1) =>
+    resolve_loop (fun st c => fetch_comp fuel strict fs m0 st None [] c) (fun c => ItComp None (cname c))
+                 (imported_comps m0) acc st1
   | other => other
   end.
 
@@ -506,9 +518,29 @@ Definition resolve_imports (fuel : nat) (strict : bool) (fs : fsys) (st : state)
 
 Inductive ttype := RESOLVED | DEFINED.
 
+(* Candidate repairs (fixes/C07-*.diff); the code as it is now is [no_fixes].
+   fx_pop     : Units::performTestWithHistory pops the epoch it pushed (finding C07-units-history-not-popped)
+   fx_nullref : referencedUnits skips a reference that is not a units of the model instead of recursing on a
+                null pointer (finding C07-null-deref-dangling-units-ref) *)
+Record fixes := { fx_pop : bool; fx_nullref : bool }.
+Definition no_fixes : fixes := {| fx_pop := false; fx_nullref := false |}.
+
+(* "for (x : l) if (step(x)) return true; return false;" *)
+Fixpoint none_found {A X : Type} (step : X -> A -> res (bool * X)) (l : list A) (x : X) : res (bool * X) :=
+  match l with
+  | [] => Ok (false, x)
+  | a :: r => match step x a with
+              | Ok (false, x') => none_found step r x'
+              | other => other
+              end
+  end.
+
+Definition res_map {A B : Type} (f : A -> B) (r : res A) : res B :=
+  match r with Ok a => Ok (f a) | Crash => Crash | OutOfFuel => OutOfFuel end.
+
 (* units.cpp: UnitsImpl::performTestWithHistory.  [cm] is the model that owns [u] (= content of [o]).
    The import branch pushes its epoch and never pops it: the history is returned. *)
-Fixpoint units_test (fuel : nat) (ty : ttype) (st : state) (m0 : model) (o : owner) (cm : model)
+Fixpoint units_test (fx : fixes) (fuel : nat) (ty : ttype) (st : state) (m0 : model) (o : owner) (cm : model)
          (hist : list epoch) (u : units) {struct fuel} : res (bool * list epoch) :=
   match fuel with
   | 0 => OutOfFuel
@@ -523,23 +555,19 @@ Fixpoint units_test (fuel : nat) (ty : ttype) (st : state) (m0 : model) (o : own
         | Some iu =>
           let h := {| e_src := importee_url hist url; e_dst := url; e_srcm := o; e_dstm := Some (mk_key url) |} in
           if check_cycle st m0 hist h then Ok (false, hist)
-          else units_test f ty st m0 (Some (mk_key url)) sm (hist ++ [h]) iu
+          else match units_test fx f ty st m0 (Some (mk_key url)) sm (hist ++ [h]) iu with
+               | Ok (b, hist') => Ok (b, if fx_pop fx then hist else hist')
+               | other => other
+               end
         end
       end
     | ULocal _ refs =>
-      (fix loop (refs : list string) (hist : list epoch) {struct refs} : res (bool * list epoch) :=
-         match refs with
-         | [] => Ok (true, hist)
-         | r :: rest =>
-           if is_std r then loop rest hist
-           else match find_units (m_units cm) r with
-                | Some cu => match units_test f ty st m0 o cm hist cu with
-                             | Ok (true, hist') => loop rest hist'
-                             | other => other
-                             end
-                | None => match ty with DEFINED => Ok (false, hist) | RESOLVED => loop rest hist end
-                end
-         end) refs hist
+      all_ok (fun hist r =>
+                if is_std r then Ok (true, hist)
+                else match find_units (m_units cm) r with
+                     | Some cu => units_test fx f ty st m0 o cm hist cu
+                     | None => match ty with DEFINED => Ok (false, hist) | RESOLVED => Ok (true, hist) end
+                     end) refs hist
     end
   end.
 
@@ -547,7 +575,7 @@ Fixpoint units_test (fuel : nat) (ty : ttype) (st : state) (m0 : model) (o : own
 Inductive uref := InModel (u : units) | Standalone (n : string).
 
 (* utilities.cpp: referencedUnits(model, units) — no null test on model->units(ref), no cycle test *)
-Fixpoint referenced_units (fuel : nat) (cm : model) (u : units) {struct fuel} : res (list uref) :=
+Fixpoint referenced_units (fx : fixes) (fuel : nat) (cm : model) (u : units) {struct fuel} : res (list uref) :=
   match fuel with
   | 0 => OutOfFuel
   | S f =>
@@ -560,9 +588,10 @@ Fixpoint referenced_units (fuel : nat) (cm : model) (u : units) {struct fuel} : 
          | r :: rest =>
            if is_std r then loop rest
            else match find_units (m_units cm) r with
-                | None => Crash                     (* referencedUnits(model, nullptr): nullptr->unitCount() *)
+                | None => if fx_nullref fx then loop rest
+                          else Crash                (* referencedUnits(model, nullptr): nullptr->unitCount() *)
                 | Some ru =>
-                  match referenced_units f cm ru with
+                  match referenced_units fx f cm ru with
                   | Ok l1 => match loop rest with Ok l2 => Ok (l1 ++ [InModel ru] ++ l2) | other => other end
                   | other => other
                   end
@@ -572,7 +601,7 @@ Fixpoint referenced_units (fuel : nat) (cm : model) (u : units) {struct fuel} : 
   end.
 
 (* utilities.cpp: unitsUsed(model, component) — the component and all its descendants (no cn elements here) *)
-Fixpoint units_used (fuel : nat) (cm : model) (c : comp) {struct c} : res (list uref) :=
+Fixpoint units_used (fx : fixes) (fuel : nat) (cm : model) (c : comp) {struct c} : res (list uref) :=
   match c with
   | Comp _ _ used kids =>
     match (fix vars (l : list string) : res (list uref) :=
@@ -581,7 +610,7 @@ Fixpoint units_used (fuel : nat) (cm : model) (c : comp) {struct c} : res (list 
              | n :: r =>
                if is_std n then vars r
                else match (match find_units (m_units cm) n with
-                           | Some mu => match referenced_units fuel cm mu with
+                           | Some mu => match referenced_units fx fuel cm mu with
                                         | Ok l => Ok (l ++ [InModel mu])
                                         | other => other
                                         end
@@ -595,7 +624,7 @@ Fixpoint units_used (fuel : nat) (cm : model) (c : comp) {struct c} : res (list 
       match (fix go (l : list comp) : res (list uref) :=
                match l with
                | [] => Ok []
-               | k :: r => match units_used fuel cm k with
+               | k :: r => match units_used fx fuel cm k with
                            | Ok a => match go r with Ok b => Ok (a ++ b) | other => other end
                            | other => other
                            end
@@ -608,92 +637,78 @@ Fixpoint units_used (fuel : nat) (cm : model) (c : comp) {struct c} : res (list 
   end.
 
 (* Units::isResolved() / isDefined() of one of the units handed out by unitsUsed: fresh history *)
-Definition uref_test (fuel : nat) (ty : ttype) (st : state) (m0 : model) (o : owner) (cm : model) (x : uref)
+Definition uref_test (fx : fixes) (fuel : nat) (ty : ttype) (st : state) (m0 : model) (o : owner) (cm : model) (x : uref)
   : res bool :=
   match x with
   | Standalone _ =>
     (* a parent-less units without children is resolved and defined; DEFINED then asks model->hasUnits(u): no *)
     match ty with RESOLVED => Ok true | DEFINED => Ok false end
-  | InModel u => match units_test fuel ty st m0 o cm [] u with
-                 | Ok (b, _) => Ok b
-                 | Crash => Crash
-                 | OutOfFuel => OutOfFuel
-                 end
+  | InModel u => res_map fst (units_test fx fuel ty st m0 o cm [] u)
+  end.
+
+Definition unit_step {A : Type} (f : A -> res bool) : unit -> A -> res (bool * unit) :=
+  fun _ a => res_map (fun b => (b, tt)) (f a).
+
+(* the local part of ComponentImpl::performTestWithHistory: the units used by the component and its
+   descendants, then the children; [imp c] is what happens at an imported component *)
+Fixpoint comp_walk (imp : comp -> res bool) (units_ok : comp -> res bool) (c : comp) {struct c} : res bool :=
+  match c with
+  | Comp _ (Some _) _ _ => imp c
+  | Comp _ None _ kids =>
+    match units_ok c with
+    | Ok true =>
+      (fix wl (l : list comp) : res bool :=
+         match l with
+         | [] => Ok true
+         | k :: r => match comp_walk imp units_ok k with Ok true => wl r | other => other end
+         end) kids
+    | other => other
+    end
   end.
 
 (* component.cpp: ComponentImpl::performTestWithHistory (push / pop: history by value) *)
-Fixpoint comp_test (fuel : nat) (ty : ttype) (st : state) (m0 : model) (o : owner) (cm : model)
+Fixpoint comp_test (fx : fixes) (fuel : nat) (ty : ttype) (st : state) (m0 : model) (o : owner) (cm : model)
          (hist : list epoch) (c : comp) {struct fuel} : res bool :=
   match fuel with
   | 0 => OutOfFuel
   | S f =>
-    (fix walk (c : comp) {struct c} : res bool :=
-       match c with
-       | Comp _ (Some (sid, url, ref)) _ _ =>
-         match linked_model st o sid url with
-         | None => Ok false
-         | Some sm =>
-           match find_comp (m_comps sm) ref with
-           | None => Ok false
-           | Some ic =>
-             let h := {| e_src := importee_url hist url; e_dst := url; e_srcm := o; e_dstm := Some (mk_key url) |} in
-             if check_cycle st m0 hist h then Ok false
-             else comp_test f ty st m0 (Some (mk_key url)) sm (hist ++ [h]) ic
-           end
-         end
-       | Comp _ None _ kids =>
-         match units_used fuel cm c with
-         | Ok us =>
-           match (fix all (l : list uref) : res bool :=
-                    match l with
-                    | [] => Ok true
-                    | x :: r => match uref_test fuel ty st m0 o cm x with
-                                | Ok true => all r
-                                | other => other
-                                end
-                    end) us with
-           | Ok true =>
-             (fix wl (l : list comp) : res bool :=
-                match l with
-                | [] => Ok true
-                | k :: r => match walk k with Ok true => wl r | other => other end
-                end) kids
-           | other => other
-           end
-         | Crash => Crash
-         | OutOfFuel => OutOfFuel
-         end
-       end) c
+    comp_walk
+      (fun c => match c with
+                | Comp _ (Some (sid, url, ref)) _ _ =>
+                  match linked_model st o sid url with
+                  | None => Ok false
+                  | Some sm =>
+                    match find_comp (m_comps sm) ref with
+                    | None => Ok false
+                    | Some ic =>
+                      let h := {| e_src := importee_url hist url; e_dst := url; e_srcm := o;
+                                  e_dstm := Some (mk_key url) |} in
+                      if check_cycle st m0 hist h then Ok false
+                      else comp_test fx f ty st m0 (Some (mk_key url)) sm (hist ++ [h]) ic
+                    end
+                  end
+                | Comp _ None _ _ => Ok true             (* not reached *)
+                end)
+      (fun c => match units_used fx fuel cm c with
+                | Ok us => res_map fst (all_ok (unit_step (uref_test fx fuel ty st m0 o cm)) us tt)
+                | Crash => Crash
+                | OutOfFuel => OutOfFuel
+                end)
+      c
   end.
 
 (* model.cpp: Model::hasUnresolvedImports (ty = RESOLVED, returns "all resolved") and Model::isDefined *)
-Definition model_test (fuel : nat) (ty : ttype) (st : state) (m0 : model) : res bool :=
-  match (fix us (l : list units) : res bool :=
-           match l with
-           | [] => Ok true
-           | u :: r => match units_test fuel ty st m0 None m0 [] u with
-                       | Ok (true, _) => us r
-                       | Ok (false, _) => Ok false
-                       | Crash => Crash
-                       | OutOfFuel => OutOfFuel
-                       end
-           end) (m_units m0) with
-  | Ok true =>
-    (fix cs (l : list comp) : res bool :=
-       match l with
-       | [] => Ok true
-       | c :: r => match comp_test fuel ty st m0 None m0 [] c with
-                   | Ok true => cs r
-                   | other => other
-                   end
-       end) (m_comps m0)
-  | other => other
+Definition model_test (fx : fixes) (fuel : nat) (ty : ttype) (st : state) (m0 : model) : res bool :=
+  match all_ok (unit_step (fun u => res_map fst (units_test fx fuel ty st m0 None m0 [] u))) (m_units m0) tt with
+  | Ok (true, _) =>
+    res_map fst (all_ok (unit_step (comp_test fx fuel ty st m0 None m0 [])) (m_comps m0) tt)
+  | other => res_map fst other
   end.
 
-Definition has_unresolved_imports (fuel : nat) (st : state) (m0 : model) : res bool :=
-  match model_test fuel RESOLVED st m0 with Ok b => Ok (negb b) | Crash => Crash | OutOfFuel => OutOfFuel end.
+Definition has_unresolved_imports (fx : fixes) (fuel : nat) (st : state) (m0 : model) : res bool :=
+  res_map negb (model_test fx fuel RESOLVED st m0).
 
-Definition is_defined (fuel : nat) (st : state) (m0 : model) : res bool := model_test fuel DEFINED st m0.
+Definition is_defined (fx : fixes) (fuel : nat) (st : state) (m0 : model) : res bool := model_test fx fuel DEFINED st m0.
 
 (* ------------------------------------------------------------------------------------------ pre-flatten scan *)
 
@@ -705,37 +720,32 @@ Definition scan_epoch (st : state) (o : owner) (sid : nat) (url : string) : epoc
   {| e_src := model_url o; e_dst := resolving_url st o sid url; e_srcm := o;
      e_dstm := match linked_model st o sid url with Some _ => Some (mk_key url) | None => None end |}.
 
-(* importer.cpp: ImporterImpl::checkUnitsForCycles — true = an issue was found.  Never pops. *)
-Fixpoint check_units_for_cycles (fuel : nat) (st : state) (m0 : model) (o : owner) (cm : model)
-         (hist : list epoch) (u : units) {struct fuel} : res (bool * list epoch * state) :=
+(* importer.cpp: ImporterImpl::checkUnitsForCycles — true = an issue was found.  Never pops: the history
+   (and the importer state, for the issue) are threaded through. *)
+Fixpoint check_units_for_cycles (fuel : nat) (m0 : model) (o : owner) (cm : model)
+         (hs : list epoch * state) (u : units) {struct fuel} : res (bool * (list epoch * state)) :=
   match fuel with
   | 0 => OutOfFuel
   | S f =>
+    let (hist, st) := hs in
     match u with
     | ULocal _ refs =>
-      (fix loop (refs : list string) (hist : list epoch) (st : state) {struct refs} : res (bool * list epoch * state) :=
-         match refs with
-         | [] => Ok (false, hist, st)
-         | r :: rest =>
-           match find_units (m_units cm) r with         (* model->hasUnits(ref) / model->units(ref) *)
-           | Some cu => match check_units_for_cycles f st m0 o cm hist cu with
-                        | Ok (false, hist', st') => loop rest hist' st'
-                        | other => other
-                        end
-           | None => loop rest hist st
-           end
-         end) refs hist st
+      none_found (fun hs r =>
+                    match find_units (m_units cm) r with         (* model->hasUnits(ref) / model->units(ref) *)
+                    | Some cu => check_units_for_cycles f m0 o cm hs cu
+                    | None => Ok (false, hs)
+                    end) refs hs
     | UImp _ sid url ref =>
       let h := scan_epoch st o sid url in
-      if check_cycle st m0 hist h then Ok (true, hist, add_issue st R_CYCLE (ItImport o url))
+      if check_cycle st m0 hist h then Ok (true, (hist, add_issue st R_CYCLE (ItImport o url)))
       else
         let hist' := hist ++ [h] in
         match linked_model st o sid url with
-        | None => Ok (true, hist', add_issue st R_NULL_MODEL (ItImport o url))
+        | None => Ok (true, (hist', add_issue st R_NULL_MODEL (ItImport o url)))
         | Some sm =>
           match find_units (m_units sm) ref with
-          | None => Ok (true, hist', add_issue st R_MISSING_UNITS (ItImport o url))
-          | Some iu => check_units_for_cycles f st m0 (Some (mk_key url)) sm hist' iu
+          | None => Ok (true, (hist', add_issue st R_MISSING_UNITS (ItImport o url)))
+          | Some iu => check_units_for_cycles f m0 (Some (mk_key url)) sm (hist', st) iu
           end
         end
     end
@@ -770,28 +780,14 @@ Fixpoint check_comp_for_cycles (fuel : nat) (st : state) (m0 : model) (o : owner
   end.
 
 (* importer.cpp: ImporterImpl::hasImportIssues *)
-Definition has_import_issues (fuel : nat) (st : state) (m0 : model) : res (bool * state) :=
-  match (fix us (l : list units) (st : state) : res (bool * state) :=
-           match l with
-           | [] => Ok (false, st)
-           | u :: r => match check_units_for_cycles fuel st m0 None m0 [] u with
-                       | Ok (false, _, st') => us r st'
-                       | Ok (true, _, st') => Ok (true, st')
-                       | Crash => Crash
-                       | OutOfFuel => OutOfFuel
-                       end
-           end) (imported_units m0) st with
+Definition has_import_issues (fx : fixes) (fuel : nat) (st : state) (m0 : model) : res (bool * state) :=
+  match none_found (fun st u => res_map (fun r => (fst r, snd (snd r)))
+                                        (check_units_for_cycles fuel m0 None m0 ([], st) u))
+                   (imported_units m0) st with
   | Ok (false, st1) =>
-    match (fix cs (l : list comp) (st : state) : res (bool * state) :=
-             match l with
-             | [] => Ok (false, st)
-             | c :: r => match check_comp_for_cycles fuel st m0 None [] c with
-                         | Ok (false, st') => cs r st'
-                         | other => other
-                         end
-             end) (imported_comps m0) st1 with
+    match none_found (fun st c => check_comp_for_cycles fuel st m0 None [] c) (imported_comps m0) st1 with
     | Ok (false, st2) =>
-      match has_unresolved_imports fuel st2 m0 with
+      match has_unresolved_imports fx fuel st2 m0 with
       | Ok true => Ok (true, add_issue st2 R_UNRESOLVED_IMPORTS ItModel)
       | Ok false => Ok (false, st2)
       | Crash => Crash
@@ -804,11 +800,11 @@ Definition has_import_issues (fuel : nat) (st : state) (m0 : model) : res (bool 
 
 (* importer.cpp: Importer::flattenModel up to "flatModel = model->clone()": true = flattening proper starts
    (and returns a model), false = nullptr is returned with an issue *)
-Definition flatten_precheck (fuel : nat) (st : state) (m0 : model) : res (bool * state) :=
-  match has_import_issues fuel (clear_issues st) m0 with
+Definition flatten_precheck (fx : fixes) (fuel : nat) (st : state) (m0 : model) : res (bool * state) :=
+  match has_import_issues fx fuel (clear_issues st) m0 with
   | Ok (true, st1) => Ok (false, st1)
   | Ok (false, st1) =>
-    match is_defined fuel st1 m0 with
+    match is_defined fx fuel st1 m0 with
     | Ok true => Ok (true, st1)
     | Ok false => Ok (false, add_issue st1 R_UNDEFINED_MODEL ItNone)
     | Crash => Crash
